@@ -640,3 +640,59 @@ Proof.
   unfold sshape_f, strip_unchanged. induction d as [|x d IH]; [reflexivity|].
   cbn [flat_map]. rewrite flat_map_app, IH, sshape_strip_n. reflexivity.
 Qed.
+
+(* ---------------------------------------------------------------- the boolean used on real outputs *)
+(* [same_levels] (canonical sort of every level, then equality) is a sound test for [tperm] *)
+Lemma tperm_sym a b : tperm a b -> tperm b a.
+Proof.
+  induction 1 as [|s row k k' l l' _ IHk _ IHl|x y l|l1 l2 l3 _ IH1 _ IH2].
+  - constructor.
+  - apply tp_skip; assumption.
+  - apply tp_swap.
+  - eapply tp_trans; eassumption.
+Qed.
+
+Lemma sn_insert_perm x : forall l, Permutation (sn_insert x l) (x :: l).
+Proof.
+  induction l as [|y l IH]; [reflexivity|]. cbn [sn_insert]. destruct (sn_leb x y); [reflexivity|].
+  eapply Permutation_trans; [apply perm_skip; exact IH | apply perm_swap].
+Qed.
+
+Lemma sn_sort_perm l : Permutation (fold_right sn_insert [] l) l.
+Proof.
+  induction l as [|x l IH]; [reflexivity|]. cbn [fold_right].
+  eapply Permutation_trans; [apply sn_insert_perm | apply perm_skip; exact IH].
+Qed.
+
+Lemma scanon_tperm : forall d, tperm (scanon d) d.
+Proof.
+  apply (sforest_ind3 (fun x => tperm [scanon_n x] [x]) (fun d => tperm (scanon d) d)).
+  - intros s row k IH. cbn [scanon_n]. apply tp_skip; [exact IH | constructor].
+  - constructor.
+  - intros x l Hx Hl. unfold scanon. cbn [map fold_right].
+    eapply tp_trans; [apply perm_tperm; apply sn_insert_perm|].
+    apply (tperm_app [scanon_n x] [x] Hx). exact Hl.
+Qed.
+
+Lemma sign_eqb_eq a b : sign_eqb a b = true -> a = b.
+Proof. destruct a, b; cbn; intros H; try reflexivity; discriminate. Qed.
+
+Lemma sforest_eqb_eq : forall a b, sforest_eqb a b = true -> a = b.
+Proof.
+  apply (sforest_ind3 (fun x => forall y, snode_eqb x y = true -> x = y)
+                      (fun a => forall b, sforest_eqb a b = true -> a = b)).
+  - intros s row k IH [s' row' k'] H. cbn [snode_eqb] in H.
+    apply andb_true_iff in H as [H H3]. apply andb_true_iff in H as [H1 H2].
+    apply sign_eqb_eq in H1. apply String.eqb_eq in H2. subst. f_equal. apply IH.
+    clear - H3. revert k' H3. induction k as [|x t IHt]; intros [|y t'] H; cbn in *; try reflexivity; try discriminate.
+    apply andb_true_iff in H as [Ha Hb]. rewrite Ha. cbn. apply IHt. exact Hb.
+  - intros [|y t] H; [reflexivity | discriminate].
+  - intros x l Hx Hl [|y t] H; [discriminate|]. cbn [sforest_eqb] in H.
+    apply andb_true_iff in H as [Ha Hb]. f_equal; [apply Hx; exact Ha | apply Hl; exact Hb].
+Qed.
+
+Theorem same_levels_tperm a b : same_levels a b = true -> tperm a b.
+Proof.
+  unfold same_levels. intros H. apply sforest_eqb_eq in H.
+  eapply tp_trans; [apply tperm_sym; apply scanon_tperm|]. rewrite H. apply scanon_tperm.
+Qed.
